@@ -1,12 +1,1305 @@
-//! C09 — stub (not built yet).
+//! C09 — adaptive quadrature results are within tolerance of the true integral.
+//!
+//! Monitors over observed executions of `integrate` (tanh-sinh), `integrate_gaussian`,
+//! `integrate_simpson`, `integrate_fixed` (Romberg), `integrate_laguerre`, `integrate_hermite`,
+//! `integrate_chebyshev`, `integrate_chebyshev_second`:
+//!   * return value against a closed-form integral (fam.rs), required only for cases inside the
+//!     routine's *reliability class* (computed by the harness, see `gauss_class`, `replay`,
+//!     `tanhsinh_class`, `simpson_depth`), where `Ok` is required as well;
+//!   * integrand call log: every abscissa inside the integration domain; call counts;
+//!   * adaptive Simpson work against the harness's own textbook scheme (Burden-Faires Alg. 4.3);
+//!   * Romberg exactness on polynomials of degree <= 2n-1;
+//!   * `Err` for reversed / empty intervals and negative tolerances.
+
+#[path = "c09/fam.rs"]
+mod fam;
+#[path = "c09/rules.rs"]
+mod rules;
+
+use crate::json::J;
+use crate::probe::{self, Guarded};
 use crate::report::*;
+use crate::rng::{CaseHash, Rng};
+use bacon_sci::integrate::{integrate, integrate_chebyshev, integrate_chebyshev_second, integrate_fixed, integrate_gaussian, integrate_hermite, integrate_laguerre, integrate_simpson};
+use fam::{Fun, Weight, EPS};
+use nalgebra::ComplexField;
+use num_complex::Complex64 as C;
+use num_traits::FromPrimitive;
+
+// ------------------------------------------------------------------ frozen constants
+// (observed maxima are written to the evidence by every run; see the builder's report for the
+// calibration runs)
+
+/// rounding floor: FLOOR_C * eps * (term-by-term magnitude of the integrand) * (length / weight mass)
+const FLOOR_C: f64 = 64.0;
+/// Gauss family (Legendre, Laguerre, Hermite, both Chebyshev): |err| <= K_GAUSS * tol + floor
+const K_GAUSS: f64 = 4.0;
+/// tanh-sinh, 1e-8 <= tol: |err| <= K_DE * tol + floor
+const K_DE: f64 = 8.0;
+/// tanh-sinh, 1e-11 <= tol < 1e-8: |err| <= K_DE_SQRT * sqrt(tol) + floor
+const K_DE_SQRT: f64 = 8.0;
+const DE_TOL_PROPORTIONAL_FROM: f64 = 1e-8;
+/// adaptive Simpson on polynomials of degree <= 5: |err| <= K_SIMPSON * tol + floor. This one is
+/// a theorem, not a calibration: on every accepted panel I - S2 = (S2 - S1)/15 exactly and
+/// |S2 - S1| < 10 tol / 2^L, the panels partition the interval, hence |err| < 2/3 tol (observed
+/// 0.6667: the bound is attained).
+const K_SIMPSON: f64 = 1.0;
+/// Simpson work: calls <= WORK_MUL * N_ref + WORK_ADD
+const WORK_MUL: u64 = 2;
+const WORK_ADD: u64 = 16;
+/// Romberg with n rows, degree <= 2n-1: |err| <= K_ROMBERG * n * eps * mag * (b-a)
+/// (observed over 16 runs, 3.3e6 cases: 14.9)
+const K_ROMBERG: f64 = 128.0;
+/// class membership: rounding floor must stay below tol / CLASS_FLOOR_DIV
+const CLASS_FLOOR_DIV: f64 = 8.0;
+/// tanh-sinh class: exponential type in core units sigma*(b-a)/2 and polynomial degree
+const DE_SIGMA_CORE_MAX: f64 = 6.5;
+const DE_DEG_MAX: usize = 19;
+/// assumed accuracy of row m of the tabulated rule sequences, in the moment sense (relative to the
+/// absolute moments), in units of eps. The tabulated Laguerre / Hermite / high Legendre rows are
+/// not correctly rounded (measured against the harness's own rules: Laguerre n=12 3.9e-11,
+/// Hermite n=27 3.3e-11, Legendre n=12 8.7e-14, Chebyshev 7e-15); a tolerance below what the rows
+/// in use can resolve is outside the reliability class. Auditing the tables is C10's statement.
+fn table_rel(rt: Rt, m: usize) -> f64 {
+    let e = match rt {
+        Rt::Gauss => {
+            if m <= 8 {
+                128.0 // measured 16
+            } else {
+                2048.0 // measured 390
+            }
+        }
+        Rt::Laguerre => {
+            if m <= 4 {
+                128.0 // measured 19
+            } else if m <= 7 {
+                2048.0 // measured 388
+            } else if m <= 11 {
+                1e5 // measured 16110
+            } else {
+                1e6 // measured 176261
+            }
+        }
+        Rt::Hermite => {
+            if m <= 11 {
+                128.0 // measured 21
+            } else if m <= 20 {
+                8192.0 // measured 1571
+            } else if m <= 25 {
+                1e5 // measured 16077
+            } else {
+                1e6 // measured 147799
+            }
+        }
+        Rt::Cheb1 | Rt::Cheb2 => 256.0, // measured 31
+        _ => FLOOR_C,
+    };
+    e.max(FLOOR_C) * EPS
+}
+
+/// rows of the library's rule sequences (number of rules n = 1..rows), as documented in DESIGN.md
+const ROWS_LEGENDRE: usize = 12;
+
+/// tanh-sinh abscissae: allowed excess over the interval ends, in ulps of the larger end point
+const ABSCISSA_SLACK_ULPS_DE: f64 = 2.0;
+
+const BUDGET: u64 = 3_000_000;
+/// "deep" use of a rule table (evidence / thresholds): certain stop at a rule index >= this,
+/// indexed by `Rt as usize`
+const DEEP_RULES: [usize; 8] = [0, 8, 0, 0, 8, 14, 12, 12];
+
+// ------------------------------------------------------------------ value types
+
+trait Val: ComplexField<RealField = f64> + FromPrimitive + Copy {
+    fn of(f: &Fun, x: f64) -> Self;
+    fn to_c(self) -> C;
+    const NAME: &'static str;
+}
+impl Val for f64 {
+    #[inline]
+    fn of(f: &Fun, x: f64) -> f64 {
+        f.eval_r(x)
+    }
+    fn to_c(self) -> C {
+        C::new(self, 0.0)
+    }
+    const NAME: &'static str = "f64";
+}
+impl Val for C {
+    #[inline]
+    fn of(f: &Fun, x: f64) -> C {
+        f.eval_c(x)
+    }
+    fn to_c(self) -> C {
+        self
+    }
+    const NAME: &'static str = "Complex<f64>";
+}
+
+#[derive(Clone, Copy, PartialEq, Eq, Debug)]
+enum Rt {
+    TanhSinh,
+    Gauss,
+    Simpson,
+    Romberg,
+    Laguerre,
+    Hermite,
+    Cheb1,
+    Cheb2,
+}
+
+impl Rt {
+    const ALL: [Rt; 8] = [Rt::TanhSinh, Rt::Gauss, Rt::Simpson, Rt::Romberg, Rt::Laguerre, Rt::Hermite, Rt::Cheb1, Rt::Cheb2];
+    fn name(self) -> &'static str {
+        match self {
+            Rt::TanhSinh => "tanhsinh",
+            Rt::Gauss => "gauss",
+            Rt::Simpson => "simpson",
+            Rt::Romberg => "romberg",
+            Rt::Laguerre => "laguerre",
+            Rt::Hermite => "hermite",
+            Rt::Cheb1 => "chebyshev",
+            Rt::Cheb2 => "chebyshev2",
+        }
+    }
+    fn api(self) -> &'static str {
+        match self {
+            Rt::TanhSinh => "integrate(left, right, f, tol)",
+            Rt::Gauss => "integrate_gaussian(left, right, f, tol)",
+            Rt::Simpson => "integrate_simpson(left, right, f, tol, n_max)",
+            Rt::Romberg => "integrate_fixed(left, right, f, n)",
+            Rt::Laguerre => "integrate_laguerre(f, tol)",
+            Rt::Hermite => "integrate_hermite(f, tol)",
+            Rt::Cheb1 => "integrate_chebyshev(f, tol)",
+            Rt::Cheb2 => "integrate_chebyshev_second(f, tol)",
+        }
+    }
+    fn has_interval(self) -> bool {
+        matches!(self, Rt::TanhSinh | Rt::Gauss | Rt::Simpson | Rt::Romberg)
+    }
+    fn has_tol(self) -> bool {
+        self != Rt::Romberg
+    }
+    fn weight(self) -> Option<Weight> {
+        match self {
+            Rt::Laguerre => Some(Weight::Laguerre),
+            Rt::Hermite => Some(Weight::Hermite),
+            Rt::Cheb1 => Some(Weight::Cheb1),
+            Rt::Cheb2 => Some(Weight::Cheb2),
+            _ => None,
+        }
+    }
+    fn rules(self) -> &'static rules::RuleSeq {
+        match self {
+            Rt::Gauss => rules::legendre(),
+            Rt::Laguerre => rules::laguerre(),
+            Rt::Hermite => rules::hermite(),
+            Rt::Cheb1 => rules::cheb1(),
+            Rt::Cheb2 => rules::cheb2(),
+            _ => unreachable!(),
+        }
+    }
+}
+
+// ------------------------------------------------------------------ instrumented library call
+
+#[derive(Clone, Debug)]
+struct Obs {
+    calls: u64,
+    xmin: f64,
+    xmax: f64,
+    nan_x: bool,
+    head: Vec<f64>,
+}
+
+impl Obs {
+    fn new() -> Obs {
+        Obs { calls: 0, xmin: f64::INFINITY, xmax: f64::NEG_INFINITY, nan_x: false, head: vec![] }
+    }
+    #[inline]
+    fn see(&mut self, x: f64) {
+        self.calls += 1;
+        if x.is_nan() {
+            self.nan_x = true;
+        }
+        if x < self.xmin {
+            self.xmin = x;
+        }
+        if x > self.xmax {
+            self.xmax = x;
+        }
+        if self.head.len() < 8 {
+            self.head.push(x);
+        }
+    }
+}
+
+#[derive(Clone, Debug)]
+struct Call {
+    rt: Rt,
+    a: f64,
+    b: f64,
+    tol: f64,
+    /// n_max (Simpson) or number of rows (Romberg)
+    n: usize,
+}
+
+fn call_lib_t<V: Val>(c: &Call, fun: &Fun) -> (Guarded<Result<C, String>>, Obs) {
+    let mut obs = Obs::new();
+    probe::begin(BUDGET);
+    let g = {
+        let o = &mut obs;
+        let f = move |x: f64| -> V {
+            probe::tick_or_panic();
+            o.see(x);
+            V::of(fun, x)
+        };
+        let (a, b, tol, n) = (c.a, c.b, c.tol, c.n);
+        let rt = c.rt;
+        probe::guard(move || -> Result<V, String> {
+            match rt {
+                Rt::TanhSinh => integrate::<V, _>(a, b, f, tol),
+                Rt::Gauss => integrate_gaussian::<V, _>(a, b, f, tol),
+                Rt::Simpson => integrate_simpson::<V, _>(a, b, f, tol, n),
+                Rt::Romberg => integrate_fixed::<V, _>(a, b, f, n),
+                Rt::Laguerre => integrate_laguerre::<V, _>(f, tol),
+                Rt::Hermite => integrate_hermite::<V, _>(f, tol),
+                Rt::Cheb1 => integrate_chebyshev::<V, _>(f, tol),
+                Rt::Cheb2 => integrate_chebyshev_second::<V, _>(f, tol),
+            }
+        })
+    };
+    probe::begin(u64::MAX);
+    let g = match g {
+        Guarded::Ok(r) => Guarded::Ok(r.map(|v| v.to_c())),
+        Guarded::Budget => Guarded::Budget,
+        Guarded::Panic(m, l) => Guarded::Panic(m, l),
+    };
+    (g, obs)
+}
+
+fn call_lib(c: &Call, fun: &Fun) -> (Guarded<Result<C, String>>, Obs) {
+    if fun.complex {
+        call_lib_t::<C>(c, fun)
+    } else {
+        call_lib_t::<f64>(c, fun)
+    }
+}
+
+fn case_json(c: &Call, fun: &Fun) -> J {
+    let mut j = J::obj().set("routine", c.rt.name()).set("api", c.rt.api()).set("value_type", if fun.complex { C::NAME } else { <f64 as Val>::NAME });
+    if c.rt.has_interval() {
+        j.put("left", c.a);
+        j.put("right", c.b);
+    }
+    if c.rt.has_tol() {
+        j.put("tol", c.tol);
+    }
+    if c.rt == Rt::Simpson {
+        j.put("n_max", c.n);
+    }
+    if c.rt == Rt::Romberg {
+        j.put("n", c.n);
+    }
+    j.put("integrand", fun.to_json());
+    j
+}
+
+fn case_hash(c: &Call, fun: &Fun) -> u64 {
+    fun.hash_into(CaseHash::new("c09").s(c.rt.name()).f(c.a).f(c.b).f(c.tol).u(c.n as u64)).0
+}
+
+fn cj(c: C) -> J {
+    J::fs(&[c.re, c.im])
+}
+
+// ------------------------------------------------------------------ class predicates
+
+fn lnfact(n: usize) -> f64 {
+    (1..=n).map(|i| (i as f64).ln()).sum()
+}
+
+/// classical Gauss-Legendre remainder bound on [a,b]:
+///   E_n <= (b-a)^{2n+1} (n!)^4 / ((2n+1) ((2n)!)^3) * M_{2n}
+fn gauss_remainder_bound(n: usize, len: f64, m2n: f64) -> f64 {
+    if m2n == 0.0 {
+        return 0.0;
+    }
+    ((2 * n + 1) as f64 * len.ln() + 4.0 * lnfact(n) - ((2 * n + 1) as f64).ln() - 3.0 * lnfact(2 * n) + m2n.ln()).exp()
+}
+
+/// Remainder predicate: some n <= rows-2 with E_n <= tau/8 and E_{m+1} <= E_m/4 from there on
+/// (tau = tol/4 is the library's documented agreement threshold in [a,b] units). Then rules
+/// n, n+1, n+2 are all within tau/8 of the integral, so a correct two-consecutive-agreement
+/// sequence must stop by rule n+2.
+fn gauss_remainder_class(fun: &Fun, a: f64, b: f64, tol: f64) -> Option<usize> {
+    let len = b - a;
+    let tau = 0.25 * tol;
+    let e: Vec<f64> = (1..=ROWS_LEGENDRE).map(|n| gauss_remainder_bound(n, len, fun.dbound(2 * n, a, b))).collect();
+    for n in 1..=(ROWS_LEGENDRE - 2) {
+        if e[n - 1] <= tau / 8.0 && (n..ROWS_LEGENDRE).all(|m| e[m] <= e[m - 1] / 4.0 || e[m] < 1e-300) {
+            return Some(n);
+        }
+    }
+    None
+}
+
+struct Replay {
+    /// first rule index m >= 3 at which two consecutive differences are below 0.75 t: any correct
+    /// implementation has stopped by then
+    certain: Option<usize>,
+    /// every rule at which a correct implementation could stop (both differences below 1.25 t,
+    /// including the library's first difference |A_1 - 0|) is accurate to t_acc
+    potential_ok: bool,
+    worst_potential_err: f64,
+}
+
+/// Replay the documented stopping rule (two consecutive differences below the tolerance) on an
+/// independent rule sequence. `unit` scales the sums into the units of `exact`.
+fn replay(seq: &rules::RuleSeq, f: &dyn Fn(f64) -> C, unit: f64, exact: C, t_stop: f64, t_acc: f64) -> Replay {
+    let mut prev_area = C::new(0.0, 0.0);
+    let mut prev_d = f64::INFINITY;
+    let mut out = Replay { certain: None, potential_ok: true, worst_potential_err: 0.0 };
+    for (k, rule) in seq.rules.iter().enumerate() {
+        let m = k + 1;
+        let mut area = C::new(0.0, 0.0);
+        for (x, w) in rule {
+            area += f(*x) * *w;
+        }
+        area *= unit;
+        let d = (area - prev_area).norm();
+        if m >= 2 && d < 1.25 * t_stop && prev_d < 1.25 * t_stop {
+            let e = (area - exact).norm();
+            out.worst_potential_err = out.worst_potential_err.max(e);
+            if !(e <= t_acc) {
+                out.potential_ok = false;
+            }
+        }
+        if m >= 3 && d < 0.75 * t_stop && prev_d < 0.75 * t_stop {
+            out.certain = Some(m);
+            return out;
+        }
+        prev_area = area;
+        prev_d = d;
+    }
+    out
+}
+
+/// tanh-sinh (double exponential) rule from its definition: trapezoidal sums with step 2^-l in t of
+/// f(x(t)) w(t), x = tanh(pi/2 sinh t), w = pi/2 cosh t / cosh^2(pi/2 sinh t), |t| <= 3, l = 0..6.
+/// Returns the new nodes (t > 0) of each level as (x, w).
+fn de_nodes() -> &'static Vec<Vec<(f64, f64)>> {
+    static S: std::sync::OnceLock<Vec<Vec<(f64, f64)>>> = std::sync::OnceLock::new();
+    S.get_or_init(|| {
+        let hp = std::f64::consts::FRAC_PI_2;
+        let xw = |t: f64| {
+            let u = hp * t.sinh();
+            (u.tanh(), hp * t.cosh() / (u.cosh() * u.cosh()))
+        };
+        let mut levels = vec![vec![xw(1.0), xw(2.0), xw(3.0)]];
+        for l in 1..=6u32 {
+            let h = 0.5f64.powi(l as i32);
+            let mut v = vec![];
+            let mut j = 0;
+            loop {
+                let t = (2 * j + 1) as f64 * h;
+                if t >= 3.0 {
+                    break;
+                }
+                v.push(xw(t));
+                j += 1;
+            }
+            levels.push(v);
+        }
+        levels
+    })
+}
+
+struct DeReplay {
+    certain: Option<usize>,
+    potential_ok: bool,
+}
+
+/// Class membership for tanh-sinh, from the property's own description of the stopping heuristic
+/// (it accepts at the earliest when the squared difference of two consecutive levels is below the
+/// tolerance): the harness's own level sums I_0..I_6 on [-1,1] must (a) contain a level l >= 2
+/// whose difference to the previous level is below 0.75 tol (any correct implementation has
+/// stopped by then) and (b) be accurate to `t_acc` at every level l >= 2 up to that one whose
+/// difference is below sqrt(1.25 tol) (every level at which it could stop).
+fn de_replay(f: &dyn Fn(f64) -> C, exact_core: C, tol: f64, t_acc: f64) -> DeReplay {
+    let nodes = de_nodes();
+    let mut out = DeReplay { certain: None, potential_ok: true };
+    let mut integral = f(0.0) * std::f64::consts::FRAC_PI_2;
+    for (l, level) in nodes.iter().enumerate() {
+        let h = 0.5f64.powi(l as i32);
+        let mut s = C::new(0.0, 0.0);
+        for (x, w) in level {
+            s += (f(*x) + f(-*x)) * *w;
+        }
+        let new = if l == 0 { integral + s } else { integral * 0.5 + s * h };
+        let d = (new - integral).norm();
+        integral = new;
+        if l >= 2 {
+            if d * d < 1.25 * tol && !((integral - exact_core).norm() <= t_acc) {
+                out.potential_ok = false;
+            }
+            if d < 0.75 * tol {
+                out.certain = Some(l);
+                return out;
+            }
+        }
+    }
+    out
+}
+
+// ------------------------------------------------------------------ textbook adaptive Simpson (work reference)
+
+struct BfOut {
+    value: Option<C>,
+    evals: u64,
+    max_level: usize,
+}
+
+/// Burden & Faires, Numerical Analysis, Algorithm 4.3 (adaptive quadrature), written with an
+/// explicit stack of panel records: TOL_1 = 10 TOL, halved per level; a panel is accepted when
+/// |S1 + S2 - S| < TOL_i.
+fn burden_faires(f: &dyn Fn(f64) -> C, a: f64, b: f64, tol: f64, n_max: usize, cap: u64) -> BfOut {
+    struct P {
+        a: f64,
+        h: f64,
+        fa: C,
+        fc: C,
+        fb: C,
+        tol: f64,
+        s: C,
+        level: usize,
+    }
+    let h = (b - a) / 2.0;
+    let (fa, fc, fb) = (f(a), f(a + h), f(b));
+    let mut evals = 3u64;
+    let mut max_level = 1;
+    let mut app = C::new(0.0, 0.0);
+    let mut stack = vec![P { a, h, fa, fc, fb, tol: 10.0 * tol, s: (fa + fc * 4.0 + fb) * (h / 3.0), level: 1 }];
+    while let Some(p) = stack.pop() {
+        let fd = f(p.a + p.h / 2.0);
+        let fe = f(p.a + 3.0 * p.h / 2.0);
+        evals += 2;
+        max_level = max_level.max(p.level);
+        let s1 = (p.fa + fd * 4.0 + p.fc) * (p.h / 6.0);
+        let s2 = (p.fc + fe * 4.0 + p.fb) * (p.h / 6.0);
+        if (s1 + s2 - p.s).norm() < p.tol {
+            app += s1 + s2;
+        } else {
+            if p.level >= n_max || evals > cap {
+                return BfOut { value: None, evals, max_level };
+            }
+            stack.push(P { a: p.a + p.h, h: p.h / 2.0, fa: p.fc, fc: fe, fb: p.fb, tol: p.tol / 2.0, s: s2, level: p.level + 1 });
+            stack.push(P { a: p.a, h: p.h / 2.0, fa: p.fa, fc: fd, fb: p.fc, tol: p.tol / 2.0, s: s1, level: p.level + 1 });
+        }
+    }
+    BfOut { value: Some(app), evals, max_level }
+}
+
+/// Depth (0 = whole interval) at which every panel of a polynomial of degree <= 5 is accepted: on a
+/// panel of width W, |S2 - S1| = W^5 |f''''(mid)| / 3072 exactly, accepted when < 10 tol / 2^L with
+/// W = len / 2^L, i.e. 2^{4L} > len^5 M4 / (30720 tol). Panels that are split are at depth < L,
+/// i.e. at the routine's level <= L, so n_max = L + 1 suffices. None when the quotient is within
+/// 2 % (in the exponent) of a power of 16, where rounding could decide the deepest level.
+fn simpson_depth(len: f64, m4: f64, tol: f64) -> Option<usize> {
+    let q = len.powi(5) * m4 / (30720.0 * tol);
+    if !(q > 0.0) {
+        return Some(0);
+    }
+    let e = q.log2() / 4.0;
+    if e < -0.02 {
+        return Some(0);
+    }
+    let fr = e - e.floor();
+    if !(0.02..=0.98).contains(&fr) {
+        return None;
+    }
+    Some(e.ceil().max(0.0) as usize)
+}
+
+// ------------------------------------------------------------------ generators
+
+fn gen_interval(rng: &mut Rng) -> (f64, f64) {
+    let len = rng.r(0.05, 4.0);
+    let a = rng.r(-5.0, 5.0 - len);
+    let b = (a + len).min(5.0);
+    (a, b)
+}
+
+fn gen_tol(rng: &mut Rng) -> f64 {
+    rng.log10(-11.0, -3.0)
+}
+
+fn rc(rng: &mut Rng, complex: bool) -> C {
+    if complex {
+        C::new(rng.r(-1.0, 1.0), rng.r(-1.0, 1.0))
+    } else {
+        C::new(rng.r(-1.0, 1.0), 0.0)
+    }
+}
+
+fn centred_poly(rng: &mut Rng, fun: &mut Fun, a: f64, b: f64, deg: usize) {
+    let len = b - a;
+    fun.x0 = 0.5 * (a + b) + rng.r(-0.25, 0.25) * len;
+    fun.s = rng.r(0.6, 1.0) * len;
+    let complex = fun.complex;
+    fun.poly = (0..=deg).map(|_| rc(rng, complex)).collect();
+    // make sure the leading coefficient is not negligible
+    if let Some(l) = fun.poly.last_mut() {
+        if l.norm() < 0.2 {
+            *l = C::new(0.5, if complex { -0.4 } else { 0.0 });
+        }
+    }
+}
+
+fn monomial_poly(rng: &mut Rng, fun: &mut Fun, deg: usize) {
+    fun.x0 = 0.0;
+    fun.s = 1.0;
+    let complex = fun.complex;
+    fun.poly = (0..=deg).map(|i| rc(rng, complex) * 0.5f64.powi(i as i32)).collect();
+    if let Some(l) = fun.poly.last_mut() {
+        if l.norm() < 0.2 * 0.5f64.powi(deg as i32) {
+            *l = C::new(0.5 * 0.5f64.powi(deg as i32), 0.0);
+        }
+    }
+}
+
+fn add_exp(rng: &mut Rng, fun: &mut Fun, mid: f64, kmax: f64) {
+    let rate = if fun.complex { C::new(rng.r(-1.0, 1.0), rng.sign() * rng.r(0.3, 3.0)) } else { C::new(rng.sign() * rng.r(0.2, kmax), 0.0) };
+    // amplitude O(1) at the centre of the interval
+    let amp = rc(rng, fun.complex) * (-rate.re * mid).exp();
+    fun.exps.push((amp, rate));
+}
+
+fn add_sin(rng: &mut Rng, fun: &mut Fun) {
+    fun.sins.push((rng.r(-1.0, 1.0), rng.r(0.3, 3.0), rng.r(0.0, std::f64::consts::TAU)));
+}
+
+/// G-quad on a finite interval. `kinds`: which members may be drawn.
+#[derive(Clone, Copy, PartialEq)]
+enum Mix {
+    /// everything (mixtures, centred polynomials up to maxdeg, low-degree monomial polynomials, single terms)
+    All,
+    /// transcendental members only
+    Smooth,
+}
+
+fn gen_fun_interval(rng: &mut Rng, complex: bool, a: f64, b: f64, mix: Mix, maxdeg: usize) -> Fun {
+    let mut fun = Fun::zero(complex);
+    let mid = 0.5 * (a + b);
+    let u = rng.f();
+    let kind = match mix {
+        Mix::All => {
+            if u < 0.4 {
+                0
+            } else if u < 0.7 {
+                1
+            } else if u < 0.8 {
+                2
+            } else {
+                3
+            }
+        }
+        Mix::Smooth => {
+            if u < 0.7 {
+                0
+            } else {
+                3
+            }
+        }
+    };
+    match kind {
+        0 => {
+            let deg = rng.below(5);
+            monomial_poly(rng, &mut fun, deg);
+            let ne = rng.below(3);
+            let ns = rng.below(3);
+            for _ in 0..ne {
+                add_exp(rng, &mut fun, mid, 2.0);
+            }
+            for _ in 0..ns {
+                add_sin(rng, &mut fun);
+            }
+            if ne + ns == 0 {
+                add_exp(rng, &mut fun, mid, 1.0);
+            }
+        }
+        1 => {
+            let deg = rng.below(maxdeg + 1);
+            centred_poly(rng, &mut fun, a, b, deg);
+        }
+        2 => {
+            let deg = rng.below(6.min(maxdeg + 1));
+            monomial_poly(rng, &mut fun, deg);
+        }
+        _ => {
+            if rng.bool() {
+                add_exp(rng, &mut fun, mid, 3.0);
+            } else if complex {
+                // e^{i w x}
+                fun.exps.push((rc(rng, true), C::new(0.0, rng.sign() * rng.r(0.3, 3.0))));
+            } else {
+                add_sin(rng, &mut fun);
+            }
+        }
+    }
+    fun
+}
+
+fn gen_fun_weighted(rng: &mut Rng, complex: bool, w: Weight) -> Fun {
+    let mut fun = Fun::zero(complex);
+    let (dmax, kr, wr): (usize, (f64, f64), (f64, f64)) = match w {
+        Weight::Laguerre => (19, (-1.0, 0.4), (0.05, 1.5)),
+        Weight::Hermite => (49, (-2.5, 2.5), (0.1, 4.0)),
+        Weight::Cheb1 | Weight::Cheb2 => (60, (-6.0, 6.0), (0.1, 8.0)),
+    };
+    let u = rng.f();
+    let kind = if u < 0.4 {
+        0
+    } else if u < 0.8 {
+        1
+    } else {
+        2
+    };
+    let deg = match kind {
+        0 => rng.below(dmax + 1),
+        1 => rng.below(7),
+        _ => 0,
+    };
+    let (_, am) = fam::moments(w, deg);
+    fun.poly = (0..=deg).map(|i| rc(rng, complex) / am[i]).collect();
+    if kind == 2 {
+        fun.poly.clear();
+    }
+    if kind >= 1 {
+        let nt = if kind == 2 { 1 } else { 1 + rng.below(2) };
+        for _ in 0..nt {
+            let amp = if kind == 2 && rng.chance(0.3) { 1.0 } else { rng.log10(-5.0, 0.0) };
+            if rng.bool() {
+                let rate = if complex { C::new(rng.r(kr.0, kr.1) * 0.5, rng.sign() * rng.r(wr.0, wr.1)) } else { C::new(rng.r(kr.0, kr.1), 0.0) };
+                fun.exps.push((rc(rng, complex) * amp, rate));
+            } else {
+                fun.sins.push((rng.r(-1.0, 1.0) * amp, rng.r(wr.0, wr.1), rng.r(0.0, std::f64::consts::TAU)));
+            }
+        }
+    }
+    // overall size: the tabulated Laguerre/Hermite rows resolve only ~1e-10 of the integrand's
+    // magnitude, so small integrands are what populates the tight-tolerance part of the class
+    if rng.bool() {
+        let g = rng.log10(-3.0, 0.0);
+        for c in fun.poly.iter_mut() {
+            *c *= g;
+        }
+        for e in fun.exps.iter_mut() {
+            e.0 *= g;
+        }
+        for t in fun.sins.iter_mut() {
+            t.0 *= g;
+        }
+    }
+    fun
+}
+
+// ------------------------------------------------------------------ shared monitors
+
+/// Abscissa containment. Returns false (after recording the violation) when it fails.
+fn check_abscissae(rep: &mut Report, c: &Call, fun: &Fun, obs: &Obs) -> bool {
+    let name = c.rt.name();
+    if obs.calls == 0 {
+        return true;
+    }
+    let (lo, hi, strict) = match c.rt {
+        Rt::TanhSinh | Rt::Gauss | Rt::Simpson | Rt::Romberg => (c.a, c.b, false),
+        Rt::Laguerre => (0.0, f64::INFINITY, false),
+        Rt::Hermite => (f64::NEG_INFINITY, f64::INFINITY, false),
+        Rt::Cheb1 | Rt::Cheb2 => (-1.0, 1.0, true),
+    };
+    // tanh-sinh maps nodes as close as 4e-14 to +-1 through scale*x+shift: the rounding of that
+    // expression (<= 1.5 ulp of the larger end point) is allowed for; everything else is exact
+    let ulp = EPS * c.a.abs().max(c.b.abs()).max(f64::MIN_POSITIVE);
+    let slack = if c.rt == Rt::TanhSinh { ABSCISSA_SLACK_ULPS_DE * ulp } else { 0.0 };
+    let bad = obs.nan_x || obs.xmin < lo - slack || obs.xmax > hi + slack || (strict && (obs.xmin <= lo || obs.xmax >= hi)) || (c.rt == Rt::Hermite && (obs.xmin.is_infinite() || obs.xmax.is_infinite()));
+    if c.rt.has_interval() {
+        rep.max(&format!("{}/abscissa_excess_ulps(negative = inside)", name), ((obs.xmax - hi) / ulp).max((lo - obs.xmin) / ulp).max(-1e3));
+    }
+    if bad {
+        rep.violation(
+            &format!("{}/abscissa-outside", name),
+            case_json(c, fun).set("min_abscissa", obs.xmin).set("max_abscissa", obs.xmax).set("calls", obs.calls),
+            format!("integrand was evaluated at abscissae in [{:.17e}, {:.17e}] (NaN seen: {}), integration domain is [{:.17e}, {:.17e}]", obs.xmin, obs.xmax, obs.nan_x, lo, hi),
+        );
+        return false;
+    }
+    true
+}
+
+struct Verdict {
+    /// whether Ok and the accuracy bound are required
+    in_class: bool,
+    /// allowed |result - exact|
+    bound: f64,
+    /// what the ratio is measured against (tol, or sqrt band: still tol, evidence only)
+    ratio_name: &'static str,
+}
+
+/// Common handling of a valid-input execution: panic / budget / Err / accuracy.
+/// Returns Some(error) when the library returned Ok.
+fn judge(rep: &mut Report, c: &Call, fun: &Fun, g: &Guarded<Result<C, String>>, obs: &Obs, exact: C, v: &Verdict, extra: &dyn Fn(J) -> J) -> Option<f64> {
+    let name = c.rt.name();
+    let cjson = |res: J| extra(case_json(c, fun).set("exact_integral", cj(exact)).set("observed", res).set("integrand_calls", obs.calls).set("in_reliability_class", v.in_class).set("allowed_error", v.bound));
+    match g {
+        Guarded::Panic(m, l) => {
+            rep.violation(&format!("{}/panic", name), cjson(J::from(format!("panic: {}", m))), format!("{} panicked on a valid call: '{}' at {}", c.rt.api(), m, l));
+            None
+        }
+        Guarded::Budget => {
+            rep.violation(&format!("{}/evaluation-budget", name), cjson(J::from("budget exhausted")), format!("{} did not return within {} integrand evaluations", c.rt.api(), BUDGET));
+            None
+        }
+        Guarded::Ok(Err(e)) => {
+            if v.in_class {
+                rep.violation(&format!("{}/err-in-class", name), cjson(J::from(format!("Err({})", e))), format!("{} returned Err(\"{}\") after {} evaluations for an integrand inside its reliability class (exact integral {:e}{:+e}i)", c.rt.api(), e, obs.calls, exact.re, exact.im));
+            } else {
+                rep.count(&format!("{}/out_of_class_err", name), 1);
+            }
+            None
+        }
+        Guarded::Ok(Ok(val)) => {
+            let err = (*val - exact).norm();
+            if v.in_class {
+                rep.count(&format!("{}/in_class_ok", name), 1);
+                let scale = if c.rt.has_tol() { c.tol } else { v.bound };
+                rep.max(&format!("{}/{}", name, v.ratio_name), err / scale);
+                rep.max(&format!("{}/err_over_allowed", name), err / v.bound);
+                if !(err <= v.bound) {
+                    rep.violation(
+                        &format!("{}/inaccurate", name),
+                        cjson(cj(*val)),
+                        format!("{} returned Ok({:e}{:+e}i), exact integral {:e}{:+e}i: error {:e} exceeds the allowed {:e} ({} evaluations)", c.rt.api(), val.re, val.im, exact.re, exact.im, err, v.bound, obs.calls),
+                    );
+                }
+            } else {
+                rep.count(&format!("{}/out_of_class_ok", name), 1);
+                if c.rt.has_tol() {
+                    rep.max(&format!("{}/out_of_class_err_over_tol(evidence only)", name), err / c.tol);
+                    if err > v.bound {
+                        rep.count(&format!("{}/out_of_class_ok_with_error_above_the_in_class_bound(evidence only)", name), 1);
+                    }
+                }
+            }
+            Some(err)
+        }
+    }
+}
+
+fn note_case(rep: &mut Report, c: &Call, fun: &Fun, obs: &Obs, in_class: bool, nontrivial: bool, summary: &dyn Fn(J) -> J) {
+    let name = c.rt.name();
+    rep.eval();
+    rep.count(&format!("{}/cases", name), 1);
+    if fun.complex {
+        rep.count(&format!("{}/complex_cases", name), 1);
+    }
+    rep.max(&format!("{}/max_calls", name), obs.calls as f64);
+    if in_class {
+        rep.count(&format!("{}/in_class", name), 1);
+    } else {
+        rep.count(&format!("{}/out_of_class", name), 1);
+    }
+    if in_class && nontrivial {
+        rep.count(&format!("{}/nontrivial", name), 1);
+        rep.nontrivial(case_hash(c, fun));
+        if rep.wants_sample() {
+            rep.sample(summary(case_json(c, fun).set("integrand_calls", obs.calls).set("first_abscissae", J::fs(&obs.head)).set("min_abscissa", obs.xmin).set("max_abscissa", obs.xmax)));
+        }
+    }
+}
+
+// ------------------------------------------------------------------ per-routine cases
+
+fn run_tanhsinh(rep: &mut Report, fun: &Fun, a: f64, b: f64, tol: f64) {
+    let c = Call { rt: Rt::TanhSinh, a, b, tol, n: 0 };
+    let (exact, mag) = fun.integral(a, b);
+    let len = b - a;
+    let floor = FLOOR_C * EPS * mag * len;
+    // the routine works on [-1,1] with the caller's tolerance un-scaled: core values have magnitude mag * 2
+    let floor_core = FLOOR_C * EPS * mag * 2.0;
+    let sigma_core = fun.sigma() * 0.5 * len;
+    let family = sigma_core <= DE_SIGMA_CORE_MAX && fun.degree() <= DE_DEG_MAX;
+    let rounding_ok = floor_core <= tol / CLASS_FLOOR_DIV;
+    let (scale, shift) = (0.5 * len, 0.5 * (a + b));
+    let fc = |t: f64| fun.eval_c(scale * t + shift);
+    let rp = de_replay(&fc, exact / scale, tol, 0.5 * tol / scale.max(1.0));
+    let in_class = family && rounding_ok && tol >= 1e-11 && rp.certain.is_some() && rp.potential_ok;
+    if family && !rounding_ok {
+        rep.count("tanhsinh/rounding_limited(out of class)", 1);
+    } else if family && rp.certain.is_none() {
+        rep.count("tanhsinh/own_level_sums_do_not_settle(out of class)", 1);
+    } else if family && !rp.potential_ok {
+        rep.count("tanhsinh/level_with_squared_difference_below_tol_is_inaccurate(out of class)", 1);
+    }
+    let proportional = tol >= DE_TOL_PROPORTIONAL_FROM;
+    let bound = if proportional { K_DE * tol + floor } else { K_DE_SQRT * tol.sqrt() + floor };
+    let (g, obs) = call_lib(&c, fun);
+    check_abscissae(rep, &c, fun, &obs);
+    let v = Verdict { in_class, bound, ratio_name: if proportional { "err_over_tol(tol>=1e-8)" } else { "err_over_tol(tol<1e-8, bound is 8*sqrt(tol))" } };
+    let err = judge(rep, &c, fun, &g, &obs, exact, &v, &|j| j);
+    if in_class {
+        rep.count(if proportional { "tanhsinh/in_class_proportional_band" } else { "tanhsinh/in_class_sqrt_band" }, 1);
+    }
+    // levels used: 1 + 6 + 6 + 12 + 24 + ... evaluations
+    let nontrivial = obs.calls >= 13;
+    note_case(rep, &c, fun, &obs, in_class, nontrivial, &|j| j.set("exact_integral", cj(exact)).set("error", err.unwrap_or(f64::NAN)).set("allowed_error", bound));
+}
+
+fn run_gauss(rep: &mut Report, fun: &Fun, a: f64, b: f64, tol: f64) {
+    let c = Call { rt: Rt::Gauss, a, b, tol, n: 0 };
+    let (exact, mag) = fun.integral(a, b);
+    let len = b - a;
+    let tau = 0.25 * tol;
+    let rem = gauss_remainder_class(fun, a, b, tol);
+    // independent sequence: no rule at which a correct implementation could stop is inaccurate
+    let (scale, shift) = (0.5 * len, 0.5 * (a + b));
+    let f = |t: f64| fun.eval_c(scale * t + shift);
+    let rp = replay(Rt::Gauss.rules(), &f, scale, exact, tau, 0.5 * tol);
+    let floor = table_rel(Rt::Gauss, rp.certain.unwrap_or(ROWS_LEGENDRE)) * mag * len;
+    let rounding_ok = floor <= tau / CLASS_FLOOR_DIV;
+    let in_class = rounding_ok && rem.is_some() && rp.certain.is_some() && rp.potential_ok;
+    if rem.is_some() && !rounding_ok {
+        rep.count("gauss/rounding_limited(out of class)", 1);
+    }
+    if rem.is_some() && rounding_ok && !(rp.certain.is_some() && rp.potential_ok) {
+        rep.count("gauss/remainder_class_but_spurious_agreement_possible(out of class)", 1);
+    }
+    if rem.is_none() {
+        rep.count("gauss/outside_remainder_class", 1);
+    }
+    let bound = K_GAUSS * tol + floor;
+    rep.max("gauss/harness_rule_sequence_moment_defect(validation)", Rt::Gauss.rules().worst_defect);
+    let (g, obs) = call_lib(&c, fun);
+    check_abscissae(rep, &c, fun, &obs);
+    let v = Verdict { in_class, bound, ratio_name: "err_over_tol" };
+    let err = judge(rep, &c, fun, &g, &obs, exact, &v, &|j| j.set("remainder_class_rule", rem.map(|n| n as i64).unwrap_or(-1)));
+    if in_class {
+        let m = rp.certain.unwrap();
+        rep.max("gauss/rules_needed(independent replay)", m as f64);
+        if m >= DEEP_RULES[Rt::Gauss as usize] {
+            rep.count(&format!("gauss/in_class_deep(certain stop at rule >= {})", DEEP_RULES[Rt::Gauss as usize]), 1);
+        }
+        if tol < 1e-8 {
+            rep.count("gauss/in_class_tol_below_1e-8", 1);
+        }
+    }
+    let nontrivial = obs.calls >= 6;
+    note_case(rep, &c, fun, &obs, in_class, nontrivial, &|j| j.set("exact_integral", cj(exact)).set("error", err.unwrap_or(f64::NAN)).set("allowed_error", bound).set("remainder_bound_first_rule_within_tol_over_32", rem.map(|n| n as i64).unwrap_or(-1)));
+}
+
+fn run_weighted(rep: &mut Report, rt: Rt, fun: &Fun, tol: f64) {
+    let w = rt.weight().unwrap();
+    let c = Call { rt, a: 0.0, b: 0.0, tol, n: 0 };
+    let (exact, mag) = fun.weighted_integral(w);
+    let f = |x: f64| fun.eval_c(x);
+    let rp = replay(rt.rules(), &f, 1.0, exact, tol, 0.5 * tol);
+    let floor = table_rel(rt, rp.certain.unwrap_or(usize::MAX)) * mag;
+    let rounding_ok = floor <= tol / CLASS_FLOOR_DIV;
+    let in_class = rounding_ok && rp.certain.is_some() && rp.potential_ok;
+    let name = rt.name();
+    if !rounding_ok {
+        rep.count(&format!("{}/rounding_limited(out of class)", name), 1);
+    } else if rp.certain.is_none() {
+        rep.count(&format!("{}/independent_sequence_does_not_stop(out of class)", name), 1);
+    } else if !rp.potential_ok {
+        rep.count(&format!("{}/spurious_agreement_possible(out of class)", name), 1);
+    }
+    let bound = K_GAUSS * tol + floor;
+    rep.max(&format!("{}/harness_rule_sequence_moment_defect(validation)", name), rt.rules().worst_defect);
+    let (g, obs) = call_lib(&c, fun);
+    check_abscissae(rep, &c, fun, &obs);
+    let v = Verdict { in_class, bound, ratio_name: "err_over_tol" };
+    let err = judge(rep, &c, fun, &g, &obs, exact, &v, &|j| j.set("independent_sequence_certain_stop", rp.certain.map(|n| n as i64).unwrap_or(-1)));
+    if in_class {
+        let m = rp.certain.unwrap();
+        rep.max(&format!("{}/rules_needed(independent replay)", name), m as f64);
+        if m >= DEEP_RULES[rt as usize] {
+            rep.count(&format!("{}/in_class_deep(certain stop at rule >= {})", name, DEEP_RULES[rt as usize]), 1);
+        }
+        if tol < 1e-8 {
+            rep.count(&format!("{}/in_class_tol_below_1e-8", name), 1);
+        }
+    }
+    let nontrivial = obs.calls >= 6;
+    note_case(rep, &c, fun, &obs, in_class, nontrivial, &|j| j.set("exact_integral", cj(exact)).set("error", err.unwrap_or(f64::NAN)).set("allowed_error", bound).set("independent_sequence_certain_stop", rp.certain.map(|n| n as i64).unwrap_or(-1)));
+}
+
+fn run_simpson(rep: &mut Report, fun: &Fun, a: f64, b: f64, tol: f64, tight_nmax: Option<usize>) {
+    let (exact, mag) = fun.integral(a, b);
+    let len = b - a;
+    let floor = FLOOR_C * EPS * mag * len;
+    let poly5 = fun.is_polynomial() && fun.degree() <= 5;
+    let rounding_ok = floor <= tol / CLASS_FLOOR_DIV;
+    let depth = if poly5 { simpson_depth(len, fun.dbound(4, a, b), tol) } else { None };
+    let lreq = depth.map(|d| d as i64).unwrap_or(-1);
+    let n_max = match (depth, tight_nmax) {
+        (Some(d), Some(extra)) => d + 1 + extra,
+        _ => 60,
+    };
+    let c = Call { rt: Rt::Simpson, a, b, tol, n: n_max };
+    let in_class = poly5 && rounding_ok;
+    if poly5 && !rounding_ok {
+        rep.count("simpson/rounding_limited(out of class)", 1);
+    }
+    let bound = K_SIMPSON * tol + floor;
+    let (g, obs) = call_lib(&c, fun);
+    check_abscissae(rep, &c, fun, &obs);
+    let v = Verdict { in_class, bound, ratio_name: "err_over_tol(degree<=5)" };
+    let err = judge(rep, &c, fun, &g, &obs, exact, &v, &|j| j.set("depth_at_which_every_panel_is_accepted", lreq));
+    if in_class && n_max < 60 {
+        rep.count("simpson/in_class_tight_n_max", 1);
+    }
+    // work bound (smooth family and polynomials alike): textbook scheme on the same integrand
+    let mut work_checked = false;
+    let mut n_ref = 0u64;
+    if let Guarded::Ok(Ok(_)) = &g {
+        let f = |x: f64| if fun.complex { fun.eval_c(x) } else { C::new(fun.eval_r(x), 0.0) };
+        let r = burden_faires(&f, a, b, tol, 60, BUDGET);
+        n_ref = r.evals;
+        if r.value.is_some() && rounding_ok {
+            work_checked = true;
+            rep.count("simpson/work_compared", 1);
+            if r.evals >= 101 {
+                rep.count("simpson/work_compared_with_50_or_more_panels", 1);
+            }
+            rep.max("simpson/calls_over_textbook_calls", obs.calls as f64 / r.evals as f64);
+            rep.min("simpson/calls_over_textbook_calls", obs.calls as f64 / r.evals as f64);
+            rep.max("simpson/max_textbook_depth", r.max_level as f64);
+            if obs.calls > WORK_MUL * r.evals + WORK_ADD {
+                rep.violation(
+                    "simpson/work",
+                    case_json(&c, fun).set("integrand_calls", obs.calls).set("textbook_calls", r.evals).set("textbook_depth", r.max_level),
+                    format!("integrate_simpson spent {} integrand evaluations; the textbook adaptive Simpson scheme (Burden-Faires Alg. 4.3, same 10*tol allowance and halving) needs {} on the same integrand; allowed {}*N+{}", obs.calls, r.evals, WORK_MUL, WORK_ADD),
+                );
+            }
+        } else {
+            rep.count("simpson/work_not_compared(reference failed or rounding-limited)", 1);
+        }
+    }
+    if !poly5 {
+        if let (Some(e), true) = (err, rounding_ok) {
+            rep.max("simpson/err_over_tol(smooth family, evidence only)", e / tol);
+        }
+    }
+    let nontrivial = obs.calls > 5;
+    let note_in_class = in_class || (work_checked && !poly5);
+    note_case(rep, &c, fun, &obs, note_in_class, nontrivial, &|j| j.set("exact_integral", cj(exact)).set("error", err.unwrap_or(f64::NAN)).set("textbook_calls", n_ref).set("hard_accuracy_bound_applies", in_class));
+}
+
+fn run_romberg(rep: &mut Report, fun: &Fun, a: f64, b: f64, n: usize) {
+    let c = Call { rt: Rt::Romberg, a, b, tol: 0.0, n };
+    let (exact, mag) = fun.integral(a, b);
+    let len = b - a;
+    let in_class = fun.is_polynomial() && fun.degree() <= 2 * n - 1;
+    let bound = K_ROMBERG * n as f64 * EPS * mag * len;
+    let (g, obs) = call_lib(&c, fun);
+    check_abscissae(rep, &c, fun, &obs);
+    let v = Verdict { in_class, bound, ratio_name: "err_over_allowed" };
+    let err = judge(rep, &c, fun, &g, &obs, exact, &v, &|j| j.set("degree", fun.degree()));
+    if let (Some(e), true) = (err, in_class) {
+        rep.max("romberg/err_over_n_eps_mag_len", e / (n as f64 * EPS * mag * len));
+    }
+    if let Guarded::Ok(Ok(_)) = &g {
+        let expect = 1 + (1u64 << (n - 1));
+        rep.max("romberg/calls_over_2^(n-1)+1", obs.calls as f64 / expect as f64);
+    }
+    if in_class && fun.degree() + 2 >= 2 * n - 1 {
+        rep.count("romberg/top_degree_cases", 1);
+    }
+    let nontrivial = n >= 2;
+    note_case(rep, &c, fun, &obs, in_class, nontrivial, &|j| j.set("exact_integral", cj(exact)).set("error", err.unwrap_or(f64::NAN)).set("allowed_error", bound).set("degree", fun.degree()));
+}
+
+// ------------------------------------------------------------------ Err cases
+
+const ERR_KINDS: [&str; 5] = ["reversed-interval", "empty-interval", "negative-tolerance", "reversed-interval-and-negative-tolerance", "empty-interval-at-zero"];
+
+fn run_err_case(rep: &mut Report, rng: &mut Rng, rt: Rt, kind: usize, complex: bool) {
+    let name = rt.name();
+    let (a0, b0) = gen_interval(rng);
+    let tol0 = gen_tol(rng);
+    let neg_tol = *rng.pick(&[-1e-6, -1.0, -1e-300, -1e300, -tol0, -1e-11]);
+    let (a, b, tol) = match kind {
+        0 => (b0, a0, tol0),
+        1 => (a0, a0, tol0),
+        2 => (a0, b0, neg_tol),
+        3 => (b0, a0, neg_tol),
+        _ => (0.0, 0.0, tol0),
+    };
+    let fun = if rt.has_interval() { gen_fun_interval(rng, complex, a0, b0, Mix::All, 5) } else { gen_fun_weighted(rng, complex, rt.weight().unwrap()) };
+    let n = if rt == Rt::Simpson { 60 } else { 1 + rng.below(8) };
+    let c = Call { rt, a, b, tol, n };
+    let (g, obs) = call_lib(&c, &fun);
+    rep.eval();
+    rep.count(&format!("{}/err_expected_cases", name), 1);
+    rep.count(&format!("err_expected/{}", ERR_KINDS[kind]), 1);
+    rep.max(&format!("{}/integrand_calls_on_invalid_input", name), obs.calls as f64);
+    let cjson = |o: &str| case_json(&c, &fun).set("left", a).set("right", b).set("tol", tol).set("invalid_because", ERR_KINDS[kind]).set("observed", o).set("integrand_calls", obs.calls);
+    match &g {
+        Guarded::Ok(Err(_)) => {
+            rep.count(&format!("{}/err_returned", name), 1);
+            rep.nontrivial(case_hash(&c, &fun));
+        }
+        Guarded::Ok(Ok(v)) => rep.violation(&format!("{}/ok-on-{}", name, ERR_KINDS[kind]), cjson(&format!("Ok({:e}{:+e}i)", v.re, v.im)), format!("{} with left={:e}, right={:e}, tol={:e} returned Ok({:e}{:+e}i); Err is required", rt.api(), a, b, tol, v.re, v.im)),
+        Guarded::Panic(m, l) => rep.violation(&format!("{}/panic-on-{}", name, ERR_KINDS[kind]), cjson(&format!("panic: {}", m)), format!("{} with left={:e}, right={:e}, tol={:e} panicked ('{}' at {}); Err is required", rt.api(), a, b, tol, m, l)),
+        Guarded::Budget => rep.violation(&format!("{}/no-return-on-{}", name, ERR_KINDS[kind]), cjson("evaluation budget exhausted"), format!("{} with left={:e}, right={:e}, tol={:e} did not return within {} evaluations; Err is required", rt.api(), a, b, tol, BUDGET)),
+    }
+}
+
+// ------------------------------------------------------------------ stage bodies
+
+fn case_tanhsinh(rng: &mut Rng, rep: &mut Report) {
+    let complex = rng.chance(0.3);
+    let (a, b) = gen_interval(rng);
+    let tol = gen_tol(rng);
+    let fun = gen_fun_interval(rng, complex, a, b, Mix::All, DE_DEG_MAX);
+    run_tanhsinh(rep, &fun, a, b, tol);
+}
+
+/// structured adversarial member: shift the integrand so that it vanishes at the node of the
+/// one-point rule (the first approximation is then 0, like the value the sequence starts from)
+fn vanish_at(fun: &mut Fun, x1: f64) {
+    let v = fun.eval_c(x1);
+    if fun.poly.is_empty() {
+        fun.poly.push(C::new(0.0, 0.0));
+    }
+    fun.poly[0] -= v;
+}
+
+fn case_gauss(rng: &mut Rng, rep: &mut Report) {
+    let complex = rng.chance(0.3);
+    let (a, b) = gen_interval(rng);
+    let tol = gen_tol(rng);
+    let mut fun = gen_fun_interval(rng, complex, a, b, Mix::All, 2 * (ROWS_LEGENDRE - 2) - 1);
+    if rng.chance(0.06) {
+        vanish_at(&mut fun, 0.5 * (b + a));
+        rep.count("gauss/cases_vanishing_at_first_node", 1);
+    }
+    run_gauss(rep, &fun, a, b, tol);
+}
+
+fn case_simpson_poly(rng: &mut Rng, rep: &mut Report) {
+    let complex = rng.chance(0.3);
+    let (a, b) = gen_interval(rng);
+    let tol = gen_tol(rng);
+    let mut fun = Fun::zero(complex);
+    let deg = if rng.chance(0.7) { 4 + rng.below(2) } else { rng.below(4) };
+    if rng.bool() {
+        centred_poly(rng, &mut fun, a, b, deg);
+    } else {
+        monomial_poly(rng, &mut fun, deg);
+    }
+    let tight = if rng.chance(0.5) { Some(rng.below(2)) } else { None };
+    run_simpson(rep, &fun, a, b, tol, tight);
+}
+
+fn case_simpson_smooth(rng: &mut Rng, rep: &mut Report) {
+    let complex = rng.chance(0.3);
+    let (a, b) = gen_interval(rng);
+    let tol = gen_tol(rng);
+    let fun = gen_fun_interval(rng, complex, a, b, Mix::Smooth, 4);
+    run_simpson(rep, &fun, a, b, tol, None);
+}
+
+fn case_romberg(rng: &mut Rng, rep: &mut Report) {
+    let complex = rng.chance(0.3);
+    let (a, b) = gen_interval(rng);
+    let n = 1 + rng.below(12);
+    let top = 2 * n - 1;
+    let deg = if rng.chance(0.6) { top - rng.below(2) } else { rng.below(top + 1) };
+    let mut fun = Fun::zero(complex);
+    if deg <= 5 && rng.chance(0.3) {
+        monomial_poly(rng, &mut fun, deg);
+    } else {
+        centred_poly(rng, &mut fun, a, b, deg);
+    }
+    run_romberg(rep, &fun, a, b, n);
+}
+
+fn case_weighted(rt: Rt, rng: &mut Rng, rep: &mut Report) {
+    let complex = rng.chance(0.3);
+    let tol = gen_tol(rng);
+    let mut fun = gen_fun_weighted(rng, complex, rt.weight().unwrap());
+    if rng.chance(0.06) {
+        vanish_at(&mut fun, if rt == Rt::Laguerre { 1.0 } else { 0.0 });
+        rep.count(&format!("{}/cases_vanishing_at_first_node", rt.name()), 1);
+    }
+    run_weighted(rep, rt, &fun, tol);
+}
+
+const STAGE_TAGS: [&str; 10] = ["tanhsinh", "gauss", "simpson-poly", "simpson-smooth", "romberg", "laguerre", "hermite", "chebyshev", "chebyshev2", "errs"];
+
+fn dispatch(tag_idx: usize, rng: &mut Rng, rep: &mut Report, i: u64) {
+    match tag_idx {
+        0 => case_tanhsinh(rng, rep),
+        1 => case_gauss(rng, rep),
+        2 => case_simpson_poly(rng, rep),
+        3 => case_simpson_smooth(rng, rep),
+        4 => case_romberg(rng, rep),
+        5 => case_weighted(Rt::Laguerre, rng, rep),
+        6 => case_weighted(Rt::Hermite, rng, rep),
+        7 => case_weighted(Rt::Cheb1, rng, rep),
+        8 => case_weighted(Rt::Cheb2, rng, rep),
+        _ => {
+            // every valid (routine, kind of invalid input) pair, real and complex
+            let mut combos: Vec<(Rt, usize)> = vec![];
+            for rt in Rt::ALL {
+                for kind in 0..ERR_KINDS.len() {
+                    let interval_kind = kind != 2;
+                    let tol_kind = kind == 2 || kind == 3;
+                    if (interval_kind && !rt.has_interval()) || (tol_kind && !rt.has_tol()) {
+                        continue;
+                    }
+                    combos.push((rt, kind));
+                }
+            }
+            let (rt, kind) = combos[(i % combos.len() as u64) as usize];
+            let complex = (i / combos.len() as u64) % 2 == 1;
+            run_err_case(rep, rng, rt, kind, complex);
+        }
+    }
+}
+
+/// classic closed-form integrals, written out (seed independent):
+/// int_0^1 e^x, int_0^pi sin x, int_-1^2 (x^5 - 3x^3 + x - 1), int_0^2 e^{ix} through the four
+/// finite-interval routines; int w(x) cos x, int w(x) e^{x/2}, int w(x) (x^4 - x + 1) through the
+/// four weighted routines; three tolerances each.
+fn textbook_anchor(k: u64, rep: &mut Report) {
+    let pi = std::f64::consts::PI;
+    let r = |x: f64| C::new(x, 0.0);
+    let tol = [1e-4, 1e-7, 1e-10][(k % 3) as usize];
+    let which = (k / 3) % 4;
+    let routine = (k / 12) % 8;
+    if routine < 4 {
+        let mut fun = Fun::zero(which == 3);
+        let (a, b) = match which {
+            0 => {
+                fun.exps.push((r(1.0), r(1.0)));
+                (0.0, 1.0)
+            }
+            1 => {
+                fun.sins.push((1.0, 1.0, 0.0));
+                (0.0, pi)
+            }
+            2 => {
+                fun.poly = vec![r(-1.0), r(1.0), r(0.0), r(-3.0), r(0.0), r(1.0)];
+                (-1.0, 2.0)
+            }
+            _ => {
+                fun.exps.push((r(1.0), C::new(0.0, 1.0)));
+                (0.0, 2.0)
+            }
+        };
+        match routine {
+            0 => run_tanhsinh(rep, &fun, a, b, tol),
+            1 => run_gauss(rep, &fun, a, b, tol),
+            2 => run_simpson(rep, &fun, a, b, tol, None),
+            _ => {
+                // Romberg claims exactness for polynomials only: degree 5 needs n >= 3
+                fun = Fun::zero(false);
+                fun.poly = vec![r(-1.0), r(1.0), r(0.0), r(-3.0), r(0.0), r(1.0)];
+                run_romberg(rep, &fun, -1.0 - which as f64 * 0.5, 2.0, 3 + (k % 3) as usize)
+            }
+        }
+    } else {
+        let rt = [Rt::Laguerre, Rt::Hermite, Rt::Cheb1, Rt::Cheb2][(routine - 4) as usize];
+        let mut fun = Fun::zero(which == 3);
+        match which {
+            0 => fun.sins.push((1.0, 1.0, pi / 2.0)),
+            1 => fun.exps.push((r(1.0), r(0.5))),
+            2 => fun.poly = vec![r(1.0), r(-1.0), r(0.0), r(0.0), r(1.0)],
+            _ => fun.exps.push((r(1.0), C::new(-0.25, 0.5))),
+        }
+        run_weighted(rep, rt, &fun, tol.max(1e-8));
+    }
+}
+
+const N_TEXTBOOK: u64 = 96;
+const ANCHORS_PER_TAG: u64 = 60;
 
 pub fn meta() -> CheckMeta {
-    CheckMeta { id: "C09", level: "exploration", rule: "stub".into(), assumptions: vec![], exhaustive: false, stuck_is_violation: false }
+    CheckMeta {
+        id: "C09",
+        level: "exploration",
+        rule: "cases: G-quad integrands f = P((x-x0)/s) + sum c e^{rx} + sum d sin(wx+phi) (real and complex, closed-form integrals) on intervals of length 0.05..4 in [-5,5], tol 10^[-11,-3], x 8 routines; plus Err-expected calls (reversed/empty interval, negative tolerance). A case is non-trivial when it is inside the routine's reliability class (where Ok and the accuracy bound are asserted) and the call count shows >= 3 rules (Gauss family, >= 6 calls), >= 2 levels (tanh-sinh, >= 13 calls), >= 1 subdivision (Simpson, > 5 calls; for the smooth family: work bound compared), >= 2 rows (Romberg); Err-expected cases count when Err was returned. distinct = distinct hash of (routine, interval, tol, n, all integrand parameters)".into(),
+        assumptions: vec![
+            "accuracy and Ok are asserted only inside the routine's reliability class, computed by the harness: (Gauss-Legendre) the classical remainder bound with the integrand's derivative bound puts rules n, n+1, n+2 (n <= 10) within tol/32 of the integral, AND on the harness's own Gauss rule sequence two consecutive differences fall below 0.75*tol/4 inside the table while every rule at which two consecutive differences are below 1.25*tol/4 (incl. the library's first difference |A_1 - 0|) is accurate to tol/2; (Laguerre, Hermite, both Chebyshev) the same replay on the harness's own rules with tol in place of tol/4; (tanh-sinh) exponential type * half length <= 6.5, degree <= 19, tol >= 1e-11, and on the harness's own level sums some level >= 2 differs from the previous one by < 0.75 tol while every level >= 2 whose squared difference is < 1.25 tol is accurate to tol/2 - the tolerance-proportional bound 8 tol is asserted for tol >= 1e-8 only, 8 sqrt(tol) below; (Simpson, hard bound) polynomials of degree <= 5, Ok also for n_max = depth bound + 1; (Romberg) polynomials of degree <= 2n-1".into(),
+            "always: the tolerance must be resolvable: floor <= tol/8 (tol/32 for Gauss-Legendre) with floor = rho * (term-by-term magnitude of the integrand) * (interval length | 1), rho = max(64 eps, assumed accuracy of the tabulated rows in use). The tabulated rows are NOT correctly rounded (moment errors measured against the harness rules: Legendre n=12 390 eps, Laguerre n=8..12 1.5e3..1.8e5 eps, Hermite n=21..27 6e3..1.5e5 eps, Chebyshev <= 31 eps); rho is frozen at 5-8 x these (table_rel); auditing the tables is C10".into(),
+            "the harness's own rule sequences (Golub-Welsch nodes + Christoffel weights, validated against closed-form moments to 1e-11; observed 2e-15) and level sums decide class membership only; the oracle is always the closed-form integral".into(),
+            "bounds: K*tol + floor with K = 4 (Gauss family), 8 (tanh-sinh), 1 (Simpson on degree <= 5: theorem 2/3); Romberg 128*n*eps*magnitude*(b-a); Simpson work: calls <= 2*N_textbook + 16".into(),
+            "tanh-sinh abscissae may exceed the interval ends by the rounding of scale*x+shift (2 ulp of the larger end point); all other finite-interval routines: exact containment; Chebyshev abscissae strictly inside (-1,1), Laguerre abscissae >= 0".into(),
+            "nothing is asserted about Ok/Err or accuracy outside the class, about n = 0 rows in integrate_fixed, or about -0.0 / NaN tolerances".into(),
+        ],
+        exhaustive: false,
+        stuck_is_violation: false,
+    }
 }
-pub fn stages(_ctx: &Ctx) -> Vec<Stage> {
-    vec![]
+
+pub fn stages(ctx: &Ctx) -> Vec<Stage> {
+    let seed = ctx.seed;
+    let tier = ctx.tier;
+    let mut st = vec![];
+    st.push(Stage::new("anchors", N_TEXTBOOK + ANCHORS_PER_TAG * STAGE_TAGS.len() as u64, move |i, rep| {
+        if i < N_TEXTBOOK {
+            textbook_anchor(i, rep);
+        } else {
+            let j = i - N_TEXTBOOK;
+            let tag = (j % STAGE_TAGS.len() as u64) as usize;
+            let k = j / STAGE_TAGS.len() as u64;
+            let mut rng = Rng::for_case(20260926, STAGE_TAGS[tag], k);
+            dispatch(tag, &mut rng, rep, k);
+        }
+    }));
+    let n = tier.pick(20_000u64, 400_000u64);
+    let n_err = tier.pick(8_800u64, 88_000u64);
+    for (t, tag) in STAGE_TAGS.iter().enumerate() {
+        let cases = if *tag == "errs" { n_err } else { n };
+        st.push(Stage::new(tag, cases, move |i, rep| {
+            let mut rng = Rng::for_case(seed, STAGE_TAGS[t], i);
+            dispatch(t, &mut rng, rep, i);
+        }));
+    }
+    st
 }
-pub fn thresholds(_ctx: &Ctx, _rep: &Report) -> Vec<Threshold> {
-    vec![Threshold { what: "check not built".into(), required: 1.0, observed: 0.0 }]
+
+pub fn thresholds(ctx: &Ctx, rep: &Report) -> Vec<Threshold> {
+    let mut t = vec![];
+    // quick: 20 000 cases per stage, thorough: 400 000; required = roughly a third of what the
+    // unchanged tree shows
+    let m = ctx.tier.pick(1.0, 10.0);
+    let mut need = |what: String, quick: f64, key: String| {
+        t.push(Threshold { what, required: quick * m, observed: rep.counter(&key) as f64 });
+    };
+    for rt in Rt::ALL {
+        let name = rt.name();
+        need(format!("{}: in-class cases that returned Ok and were compared with the closed form", name), 5000.0, format!("{}/in_class_ok", name));
+        need(format!("{}: non-trivial in-class cases", name), 4000.0, format!("{}/nontrivial", name));
+        need(format!("{}: complex-valued cases", name), 2000.0, format!("{}/complex_cases", name));
+        need(format!("{}: Err-expected calls that returned Err", name), 150.0, format!("{}/err_returned", name));
+        if DEEP_RULES[rt as usize] > 0 {
+            let d = DEEP_RULES[rt as usize];
+            need(format!("{}: in-class cases that need rule {} or beyond", name, d), 150.0, format!("{}/in_class_deep(certain stop at rule >= {})", name, d));
+            need(format!("{}: in-class cases with tol < 1e-8", name), 300.0, format!("{}/in_class_tol_below_1e-8", name));
+        }
+    }
+    for k in ERR_KINDS {
+        need(format!("Err-expected calls of kind {}", k), 500.0, format!("err_expected/{}", k));
+    }
+    need("tanh-sinh in-class cases in the tolerance-proportional band (tol >= 1e-8)".into(), 4000.0, "tanhsinh/in_class_proportional_band".into());
+    need("tanh-sinh in-class cases in the sqrt band (1e-11 <= tol < 1e-8)".into(), 2000.0, "tanhsinh/in_class_sqrt_band".into());
+    need("Simpson runs whose work was compared with the textbook scheme on >= 50 panels".into(), 4000.0, "simpson/work_compared_with_50_or_more_panels".into());
+    need("Simpson in-class cases with n_max = depth bound + 1 or + 2".into(), 2000.0, "simpson/in_class_tight_n_max".into());
+    need("Romberg cases with degree 2n-2 or 2n-1".into(), 5000.0, "romberg/top_degree_cases".into());
+    t
 }
+
